@@ -110,7 +110,7 @@ func TestProp(t *testing.T) {
 		"ok_2xx_redeem": 5, "ok_2xx_refresh": 5, "ok_2xx_profile": 5, "ok_2xx_validate": 5,
 		"idp_calls_refresh": 5, "idp_calls_profile": 5, "idp_calls_validate": 5,
 		"refused_401_redeem": 5, "refused_401_refresh": 5, "refused_401_profile": 5, "refused_401_validate": 5,
-		"redeem_genuine_2xx": 20, "redeem_genuine-signin_2xx": 3, "redeem_expired_refused": 20,
+		"redeem_genuine_2xx": 20, "redeem_genuine-signin_2xx": 3, "redeem_expired_refused": 20, "redeem_just-expired-subsecond_refused": 3, "redeem_just-expired_refused": 3,
 		"redeem_corrupted_refused": 20, "redeem_truncated_refused": 10, "redeem_other-key_refused": 10,
 		"path_plain_ok_2xx": 1, "path_variant_refused_without_credentials": 20,
 		"seq_unauthorised_after_authorised_pause_50ms": 10, "seq_unauthorised_after_authorised_pause_1100ms": 3,
@@ -383,7 +383,7 @@ func judgeRedeem(rep *vh.Report, stream string, i int, tr codeTruth, o observati
 // ---------------------------------------------------------------------------------------------
 // stream 2: code corpus
 
-var codeSlots = []string{"genuine", "genuine", "genuine", "genuine-signin", "expired", "expired", "expired", "near-deadline",
+var codeSlots = []string{"genuine", "genuine", "genuine", "genuine-signin", "expired", "expired", "expired", "near-deadline", "near-deadline",
 	"corrupted", "corrupted", "corrupted", "truncated", "truncated", "reencoded", "reencoded", "forged", "forged",
 	"other-key", "other-key", "other-key", "duplicate-param"}
 
@@ -489,15 +489,37 @@ func runCode(rep *vh.Report, env vh.Env, stacks []*stack, n, only int) {
 			}
 			codes = []string{as.SealCode(s)}
 		case "near-deadline":
-			d := now.Add(time.Duration(r.Intn(51)-25) * time.Second)
+			// A deadline that already lies in the past when the code is sealed (by a millisecond or by
+			// seconds) has passed at every later instant, so the code must be refused: no guard band is
+			// needed on that side. Deadlines at or shortly after "now" may or may not have passed when
+			// the authenticator looks at them: counted don't-care.
+			var off time.Duration
+			switch r.Intn(3) {
+			case 0:
+				off = -time.Duration(1+r.Intn(999)) * time.Millisecond
+			case 1:
+				off = -time.Duration(1+r.Intn(25))*time.Second - time.Duration(r.Intn(1000))*time.Millisecond
+			default:
+				off = time.Duration(r.Intn(26)) * time.Second
+			}
+			d := now.Add(off)
+			which := "refresh"
 			if sub%2 == 0 {
 				s.RefreshDeadline = d
-				tr.Class = "near-deadline:refresh"
 			} else {
 				s.LifetimeDeadline = d
-				tr.Class = "near-deadline:lifetime"
+				which = "lifetime"
 			}
-			tr.DontCare = "near-deadline"
+			if off < 0 {
+				tr.mustRefuse = true
+				tr.Class, tr.Sig = "just-expired:"+which, "expired-"+which+"-deadline"
+				if off > -time.Second {
+					tr.Class = "just-expired-subsecond:" + which
+				}
+			} else {
+				tr.Class = "near-deadline:" + which
+				tr.DontCare = "near-deadline"
+			}
 			codes = []string{as.SealCode(s)}
 		case "corrupted", "truncated", "reencoded":
 			g := as.SealCode(s)
